@@ -456,15 +456,22 @@ Section Proofs.
     let t := new_tx s next b in
     match f with
     | NoFault =>
-        ({| sy_store := {| sto_base := sto_base sto; sto_committed := sto_committed sto ++ [t]; sto_tail := sto_tail sto |};
+        ({| sy_store := {| sto_base := sto_base sto; sto_committed := sto_committed sto ++ [t]; sto_tail := sto_tail sto;
+                           sto_torn := sto_torn sto |};
             sy_coord := {| co_index := apply_mutation (co_index co) (finish next (co_next_lsn co)) (snd (plan_entry (co_index co) next));
                            co_next_lsn := co_next_lsn co + 1; co_ready := true |} |}, grant (co_next_lsn co))
     | FailAppend => ({| sy_store := sto; sy_coord := unready co |}, OutErr WalStoreErr)
     | FailFlush =>
-        ({| sy_store := {| sto_base := sto_base sto; sto_committed := sto_committed sto; sto_tail := sto_tail sto ++ [t] |};
+        ({| sy_store := {| sto_base := sto_base sto; sto_committed := sto_committed sto; sto_tail := sto_tail sto ++ [t];
+                           sto_torn := sto_torn sto |};
             sy_coord := unready co |}, OutErr WalStoreErr)
     | FailAfterSync =>
-        ({| sy_store := {| sto_base := sto_base sto; sto_committed := sto_committed sto ++ [t]; sto_tail := sto_tail sto |};
+        ({| sy_store := {| sto_base := sto_base sto; sto_committed := sto_committed sto ++ [t]; sto_tail := sto_tail sto;
+                           sto_torn := sto_torn sto |};
+            sy_coord := unready co |}, OutErr WalStoreErr)
+    | FailTorn =>
+        ({| sy_store := {| sto_base := sto_base sto; sto_committed := sto_committed sto; sto_tail := sto_tail sto;
+                           sto_torn := true |};
             sy_coord := unready co |}, OutErr WalStoreErr)
     end.
   Proof.
@@ -542,7 +549,7 @@ Section Proofs.
   (* ---------------------------------------------------------------- system invariant *)
   Definition sync (s : sys) (idxC : index) : Prop :=
     (co_ready (sy_coord s) = true ->
-       sto_tail (sy_store s) = [] /\ co_index (sy_coord s) = idxC /\
+       sto_tail (sy_store s) = [] /\ sto_torn (sy_store s) = false /\ co_index (sy_coord s) = idxC /\
        co_next_lsn (sy_coord s) = continuation (sto_base (sy_store s)) (committed s)) /\
     (co_ready (sy_coord s) = false ->
        co_index (sy_coord s) = idxC \/
@@ -567,7 +574,7 @@ Section Proofs.
     e_settlement (finish next (co_next_lsn (sy_coord s))) = e_settlement next ->
     Inv (fst (commit_entry s next b f finish grant)).
   Proof.
-    intros [idxC [Hobs [Hsy1 _]]] Hr Ha E1 E2 E3. destruct (Hsy1 Hr) as [Htail [Hidx Hlsn]].
+    intros [idxC [Hobs [Hsy1 _]]] Hr Ha E1 E2 E3. destruct (Hsy1 Hr) as [Htail [Htorn [Hidx Hlsn]]].
     rewrite commit_entry_cases. cbv zeta.
     set (t := new_tx s next b).
     set (e' := finish next (co_next_lsn (sy_coord s))) in *.
@@ -580,8 +587,8 @@ Section Proofs.
       cbn [ExtAct.observe_from]. rewrite Hrec. reflexivity. }
     destruct f; cbn [fst].
     - exists (upsert (co_index (sy_coord s)) e'). split; [exact Hobs'|].
-      split; cbn [sy_coord sy_store co_ready co_index co_next_lsn sto_tail sto_base committed sto_committed]; intros X; [|discriminate].
-      split; [exact Htail|]. split; [symmetry; apply upsert_as_mutation; assumption|].
+      split; cbn [sy_coord sy_store co_ready co_index co_next_lsn sto_tail sto_torn sto_base committed sto_committed]; intros X; [|discriminate].
+      split; [exact Htail|]. split; [exact Htorn|]. split; [symmetry; apply upsert_as_mutation; assumption|].
       fold (committed s). rewrite continuation_snoc. reflexivity.
     - exists idxC. split; [exact Hobs|].
       split; cbn [sy_coord sy_store unready co_ready co_index]; intros X; [discriminate|left; exact Hidx].
@@ -590,6 +597,8 @@ Section Proofs.
     - exists (upsert (co_index (sy_coord s)) e'). split; [exact Hobs'|].
       split; cbn [sy_coord sy_store unready co_ready co_index committed sto_committed]; intros X; [discriminate|].
       right. exists (committed s), t. split; [reflexivity|]. rewrite Hidx. exact Hobs.
+    - exists idxC. split; [exact Hobs|].
+      split; cbn [sy_coord sy_store unready co_ready co_index]; intros X; [discriminate|left; exact Hidx].
   Qed.
 
   (* ---------------------------------------------------------------- validation facts *)
